@@ -196,7 +196,7 @@ PROPS = {
         vfiles=["Props/C07"],
         technique="Coq proof: add_frame characterised against the independent predicate 'accepts' (iff), rejection reasons against reject_reason_applies, invariant wf_builder preserved over every finite history by induction, build characterised; correspondence + reference reassembler on generated histories",
         level_text="Theorems C07_accept_iff, C07_reject_reason, C07_no_panic, C07_new, C07_invariant (for EVERY finite history of well-formed frames after a start frame: 1 <= accepted <= announced <= 4096, "
-                   "frames_left = announced - accepted without underflow), C07_build (complete iff exactly the announced number was accepted; payload = in-order concatenation).",
+                   "frames_left = announced - accepted without underflow), C07_build (complete iff exactly the announced number was accepted; payload = in-order concatenation). C07_checker_accepts_model: the extracted checker provably accepts the model's observations.",
         level_note=NOTE_COMMON,
         streams=[dict(BLD, view="view_C07", ok="ok_C07")],
         rule=RULE_BLD,
